@@ -81,4 +81,10 @@ def noDuplicateLines : List (Nat × Nat) → Bool
   | [] => true
   | a :: rest => !(rest.any (sameLine a)) && noDuplicateLines rest
 
+/-- keep the first of every group of entries that join the same two points -/
+def dedupLines : List (Nat × Nat) → List (Nat × Nat)
+  | [] => []
+  | a :: rest => a :: (dedupLines rest).filter (fun b => !sameLine a b)
+
+
 end XfemmVerif.Edit
